@@ -518,6 +518,9 @@ func (w *world) step(t *wTask, f wFault) (outcome string) {
 		if p == "" {
 			continue
 		}
+		if strings.HasPrefix(p, "delcur") && ev.Err == "" {
+			w.tags["unwind"]++
+		}
 		if ev.Err == "XX000" || ev.Err == "dropconn" || ev.Err == "dropall" {
 			pos = p
 			break
@@ -602,4 +605,61 @@ func (w *world) setupRoot(root *config.Root) error {
 	}
 	defer conn.Release()
 	return config.Migrate(w.ctx, conn, *root)
+}
+
+// ---- snapshots (exhaustive fault enumeration replays the same step from the same state) ----
+
+func (w *world) save(name string, snaps map[string]*fakepg.DB) {
+	snaps[name] = w.pg.Snapshot()
+	w.ops = append(w.ops, "w-save "+name)
+	w.outs = append(w.outs, "ok")
+}
+
+func (w *world) load(name string, snaps map[string]*fakepg.DB) {
+	w.pg.Restore(snaps[name])
+	w.ops = append(w.ops, "w-load "+name)
+	w.outs = append(w.outs, "ok")
+}
+
+// number of database operations / source calls of the last step
+func (w *world) lastCounts(t *wTask) (db int, src int) {
+	for _, ev := range w.pg.Log() {
+		if ev.Kind == "rollback" || ev.Kind == "connlost" {
+			continue
+		}
+		db++
+	}
+	return db, t.rec.calls
+}
+
+func (w *world) head() uint64 {
+	var h uint64
+	w.node.With(func(c *simnode.Chain) { h = c.Head().Num })
+	return h
+}
+
+func (w *world) grow(k int) {
+	w.salt++
+	w.node.With(func(c *simnode.Chain) { c.Grow(k, simnode.GenOpts{Salt: w.salt, MakeTx: transferMakeTx}) })
+	w.tags["grow"]++
+}
+
+func (w *world) reorg(depth, newLen int) {
+	w.salt++
+	w.node.With(func(c *simnode.Chain) {
+		if depth >= len(c.Blocks) {
+			depth = len(c.Blocks) - 1
+		}
+		c.Reorg(depth, newLen, simnode.GenOpts{Salt: w.salt, MakeTx: transferMakeTx})
+	})
+	w.tags["reorg"]++
+}
+
+// withinOracle: no row of t lies beyond its recorded position or outside (lo, stop]
+func (w *world) withinOracle(t *wTask, lo uint64) string {
+	rows, top, has, _ := w.taskRows(t)
+	if !has {
+		top = lo
+	}
+	return fmt.Sprintf("w-within %d %d %d %s", lo, top, t.stop, listTok(rows, ","))
 }
